@@ -27,6 +27,9 @@ def verdict(c, cls, halg, by, res, allowed, env=None):
         return None
     if c == "jar" and env != "client-publishes-signer-key":
         return ("client-key-set-ignored", f"request object accepted although the client does not vouch for the signer key ({env})")
+    if cls == "alg-curve-mismatch":
+        return ("alg-curve-mismatch", f"an ECDSA signature made with algorithm {halg!r} on a key of another curve was accepted "
+                "(the algorithm does not fit the verification key)")
     if cls == "multi-sig":
         return ("multi-sig", "a token with two signatures was accepted (exactly one is required)")
     if cls in NOBODY_SIGNED:
@@ -55,7 +58,7 @@ def run(ctx):
     facts = ctx.facts() or {}
     thms = ctx.build_and_audit(["NutsProofs.Props.C17"])
     required = ["allowed_lists_asymmetric", "accept_parseJWT", "accept_parseJWS", "accept_dpop", "accept_dagTx", "accept_dagTx_partial", "accept_dagTx_of_fact",
-                "fact_dag_rejects_private_jwk", "fact_dag_framing_body", "fact_dag_kid_xor_jwk",
+                "fact_dag_rejects_private_jwk", "fact_dag_framing_body", "fact_dag_kid_xor_jwk", "fact_alg_fits_key",
                 "accept_apiToken", "accept_jar", "accept_vcJwt", "accept_vcJsonLd", "fact_vcJsonLd", "fact_wiring", "accept_authzV1", "accept_ldProof", "fact_authzV1",
                 "authzV1_without_kid_check_accepts_foreign_key", "header_keys_ignored", "apiToken_key_header_rejected",
                 "parseJWS_splitCompact_mode_accepts_two_uncovered", "dagTx_without_private_check_accepts_private_jwk",
